@@ -1049,6 +1049,15 @@ Section C02.
     Definition below (lca : option name) (x : name) : Prop :=
       match lca with Some l => In l (anc x) | None => True end.
 
+    Lemma last_before_cons lca a rest cur :
+      last_before lca (a :: rest) cur = if ostr_eqb (Some a) lca then cur else last_before lca rest a.
+    Proof. reflexivity. Qed.
+
+    Lemma entered_path_cons lca a rest acc :
+      entered_path lca (a :: rest) acc
+      = if ostr_eqb (Some a) lca then acc else entered_path lca rest (a :: acc).
+    Proof. reflexivity. Qed.
+
     Lemma last_before_spec lca : forall cur,
       (forall l, lca = Some l -> In l (anc cur)) ->
       under (last_before lca (anc cur) cur) cur /\ par (last_before lca (anc cur) cur) = lca.
@@ -1056,9 +1065,9 @@ Section C02.
       apply (anc_ind (fun cur => (forall l, lca = Some l -> In l (anc cur)) ->
         under (last_before lca (anc cur) cur) cur /\ par (last_before lca (anc cur) cur) = lca)).
       intros cur IH Hl. destruct (par cur) as [p|] eqn:Hp.
-      - rewrite (anc_some cur p Hp). simpl. destruct (ostr_eqb (Some p) lca) eqn:E.
+      - rewrite (anc_some cur p Hp), last_before_cons. destruct (ostr_eqb (Some p) lca) eqn:E.
         + apply ostr_eqb_iff in E. split; [apply under_refl|congruence].
-        + apply ostr_eqb_false_iff in E. destruct (IH p Hp) as [U P].
+        + apply ostr_eqb_false_iff in E. destruct (IH p eq_refl) as [U P].
           { intros l El. specialize (Hl l El). rewrite (anc_some cur p Hp) in Hl.
             destruct Hl as [<-|Hl]; [congruence|exact Hl]. }
           split; [|exact P]. eapply under_trans; [exact U|right; apply anc_par, Hp].
@@ -1074,7 +1083,7 @@ Section C02.
       apply (anc_ind (fun cur => forall acc, (forall l, lca = Some l -> In l (anc cur)) ->
         (In x (entered_path lca (anc cur) acc) <-> In x acc \/ (In x (anc cur) /\ below lca x)))).
       intros cur IH acc Hl. destruct (par cur) as [p|] eqn:Hp.
-      - rewrite (anc_some cur p Hp). simpl. destruct (ostr_eqb (Some p) lca) eqn:E.
+      - rewrite (anc_some cur p Hp), entered_path_cons. destruct (ostr_eqb (Some p) lca) eqn:E.
         + apply ostr_eqb_iff in E. subst lca. simpl. split; [auto|].
           intros [H|[[<-|H] Hb]]; [exact H| |]; exfalso.
           * exact (anc_irr p Hb).
@@ -1083,7 +1092,7 @@ Section C02.
           assert (forall l, lca = Some l -> In l (anc p)) as Hl'.
           { intros l El. specialize (Hl l El). rewrite (anc_some cur p Hp) in Hl.
             destruct Hl as [<-|Hl]; [congruence|exact Hl]. }
-          rewrite (IH p Hp (p :: acc) Hl'). simpl.
+          rewrite (IH p eq_refl (p :: acc) Hl'). simpl.
           assert (below lca p) as Hbp.
           { unfold below. destruct lca as [l|]; [apply Hl'; reflexivity|exact I]. }
           split.
@@ -1138,11 +1147,11 @@ Section C02.
       NoDup (set_add y l) /\ forall x, In x (set_add y l) <-> In x l \/ x = y.
     Proof.
       intros Hnd. unfold set_add. destruct (mem y l) eqn:E.
-      - apply mem_In in E. split; [exact Hnd|]. intros x. split; [auto|]. intros [H|->]; assumption.
+      - apply mem_In in E. split; [exact Hnd|]. intros x. split; [auto|]. intros [H| ->]; assumption.
       - apply mem_false_iff in E. split; [apply NoDup_snoc; assumption|].
         intros x. rewrite in_app_iff. simpl. split.
         + intros [H|[<-|[]]]; auto.
-        + intros [H|->]; auto.
+        + intros [H| ->]; auto.
     Qed.
 
     Lemma exit_all_spec : forall exi cfg, NoDup cfg ->
@@ -1251,9 +1260,9 @@ Section C02.
       set (lbl := last_before lca (anc src) src) in *.
       destruct (last_before_spec lca src (fun l El => proj1 (Hlca l El))) as [Ulbl Plbl].
       fold lbl in Ulbl, Plbl.
-      assert (In lbl cfg) as Hlbl by (eapply pclosed_under; eauto).
+      assert (In lbl cfg) as Hlbl by (exact (pclosed_under cfg lbl src Hcl Hsrc Ulbl)).
       assert (forall l, lca = Some l -> In l cfg /\ ~ under lbl l) as HL.
-      { intros l El. destruct (Hlca l El) as [Hs Ht]. split; [eapply pclosed_anc; eauto|].
+      { intros l El. destruct (Hlca l El) as [Hs Ht]. split; [exact (pclosed_anc cfg Hcl src Hsrc l Hs)|].
         rewrite El in Plbl. intros [E|H].
         - subst l. apply (anc_irr lbl). apply anc_par, Plbl.
         - apply (anc_asym lbl l H). apply anc_par, Plbl. }
@@ -1269,8 +1278,8 @@ Section C02.
         { apply Hpc in Plbl. intros E. rewrite E in Plbl. destruct Plbl. }
         destruct (Hcomposite l ls Els Hk) as [K|K].
         - exfalso. destruct (child_toward l c Hlc) as (k & Pk & Uk).
-          assert (In k cfg) as Hkc by (eapply pclosed_under; eauto).
-          assert (k = lbl) as -> by (eapply Hamo; eauto).
+          assert (In k cfg) as Hkc by (exact (pclosed_under cfg k c Hcl Hc Uk)).
+          assert (k = lbl) as -> by (exact (Hamo l ls k lbl Els K Pk Plbl Hkc Hlbl)).
           exact (Hnu Uk).
         - split; [exact K|]. intros e1 P1 U1. eapply H7; eauto. }
       split; [|].
@@ -1292,7 +1301,7 @@ Section C02.
           { intros n st c1 c2 Est K P1 P2 [Hc1 Hn1] [Hu2 Hb2].
             destruct lca as [l|]; simpl in Hb2.
             - rewrite (anc_some c2 n P2) in Hb2. destruct Hb2 as [<-|Hb2].
-              + destruct (HK l c1 eq_refl Hc1 Hn1 (anc_par c1 l P1)) as (ls & Els & Kls & _).
+              + destruct (HK n c1 eq_refl Hc1 Hn1 (anc_par c1 n P1)) as (ls & Els & Kls & _).
                 rewrite Est in Els. inversion Els; subst ls. congruence.
               + assert (In l (anc c1)) as Hlc1 by (eapply anc_tr; [apply anc_par, P1|exact Hb2]).
                 destruct (HK l c1 eq_refl Hc1 Hn1 Hlc1) as (ls & Els & Kls & He1).
@@ -1316,6 +1325,231 @@ Section C02.
         + right. split; [|exact I]. destruct (top_of tgt) as (t & Ut & Pt).
           assert (In t cfg') as Ht by (apply Hin; right; split; [exact Ut|exact I]).
           rewrite (Hone_root t (Hex' t Ht) Pt) in Ut. exact Ut.
+    Qed.
+
+    (* ---------------------------------------------------------------- E3: stabilisation steps *)
+    Lemma no_kids_of_kind n st :
+      state_for sc n = Some st -> s_kind st <> KCompound -> s_kind st <> KOrthogonal -> kids n = [].
+    Proof.
+      intros Est H1 H2. destruct (kids n) as [|c l] eqn:E; [reflexivity|]. exfalso.
+      destruct (Hcomposite n st Est) as [K|K]; [rewrite E; discriminate| |]; contradiction.
+    Qed.
+
+    (* entering children of an active state *)
+    Lemma enter_children_wk cfg cfg' n E :
+      wk cfg -> In n cfg -> (forall x, In x E -> par x = Some n) ->
+      (forall st, state_for sc n = Some st -> s_kind st = KCompound ->
+                  (forall c, par c = Some n -> ~ In c cfg) /\ (forall x y, In x E -> In y E -> x = y)) ->
+      NoDup cfg' -> (forall x, In x cfg' <-> In x cfg \/ In x E) ->
+      (forall x, In x cfg' -> state_for sc x <> None) ->
+      wk cfg'.
+    Proof.
+      intros (Hnd & Hex & Hcl & Hamo) Hn HE Hcomp Hnd' Hin Hex'.
+      split; [exact Hnd'|]. split; [exact Hex'|]. split.
+      - intros x q Hx Hq. apply Hin in Hx. apply Hin. left. destruct Hx as [Hx|Hx].
+        + eapply Hcl; eauto.
+        + rewrite (HE x Hx) in Hq. inversion Hq; subst q. exact Hn.
+      - assert (forall m st c1 c2, state_for sc m = Some st -> s_kind st = KCompound ->
+                  par c1 = Some m -> par c2 = Some m -> In c1 E -> In c2 cfg' -> c1 = c2) as Hone.
+        { intros m st c1 c2 Est K P1 P2 H1 H2. rewrite (HE c1 H1) in P1. inversion P1; subst m.
+          destruct (Hcomp st Est K) as [Hno Heq]. apply Hin in H2. destruct H2 as [H2|H2].
+          - exfalso. exact (Hno c2 P2 H2).
+          - apply Heq; assumption. }
+        intros m st c1 c2 Est K P1 P2 H1 H2.
+        pose proof H1 as H1'. pose proof H2 as H2'. apply Hin in H1. apply Hin in H2.
+        destruct H1 as [H1|H1], H2 as [H2|H2].
+        + eapply Hamo; eauto.
+        + symmetry. eapply Hone; eauto.
+        + eapply Hone; eauto.
+        + eapply Hone; eauto.
+    Qed.
+
+    (* a recorded (or default) memory of a history child of p *)
+    Definition mwf (p : name) (l : list name) : Prop :=
+      (forall x, In x l -> In p (anc x))
+      /\ (forall x q, In x l -> par x = Some q -> q = p \/ In q l)
+      /\ amo l.
+
+    Definition memory_wf (m : list (name * list name)) : Prop :=
+      forall h l p, lookup h m = Some l -> par h = Some p -> mwf p l.
+
+    (* leaving a history state and entering its memory *)
+    Lemma restore_wk cfg cfg' h p ps l :
+      wk cfg -> In h cfg -> par h = Some p -> kids h = [] ->
+      state_for sc p = Some ps -> s_kind ps = KCompound -> mwf p l ->
+      NoDup cfg' -> (forall x, In x cfg' <-> (In x cfg /\ x <> h) \/ In x l) ->
+      (forall x, In x cfg' -> state_for sc x <> None) ->
+      wk cfg'.
+    Proof.
+      intros (Hnd & Hex & Hcl & Hamo) Hh Hp Hk Eps Kps (M1 & M2 & M3) Hnd' Hin Hex'.
+      assert (forall c, In c cfg -> In p (anc c) -> c = h) as HA.
+      { intros c Hc Hpc'. destruct (child_toward p c Hpc') as (k & Pk & Uk).
+        assert (In k cfg) as Hkc by (exact (pclosed_under cfg k c Hcl Hc Uk)).
+        assert (k = h) as -> by (exact (Hamo p ps k h Eps Kps Pk Hp Hkc Hh)).
+        destruct Uk as [E|Uk]; [exact E|]. exfalso. exact (no_kids_no_desc h c Hk Uk). }
+      split; [exact Hnd'|]. split; [exact Hex'|]. split.
+      - intros x q Hx Hq. apply Hin in Hx. apply Hin. destruct Hx as [[Hx Hne']|Hx].
+        + left. split; [eapply Hcl; eauto|]. intros ->. apply Hpc in Hq. rewrite Hk in Hq. destruct Hq.
+        + destruct (M2 x q Hx Hq) as [->|Hq']; [|right; exact Hq'].
+          left. split; [eapply Hcl; eauto|]. intros ->. apply (anc_irr h). apply anc_par, Hp.
+      - assert (forall n st c1 c2, state_for sc n = Some st -> s_kind st = KCompound ->
+                  par c1 = Some n -> par c2 = Some n -> (In c1 cfg /\ c1 <> h) -> In c2 l -> False) as Hmix.
+        { intros n st c1 c2 Est K P1 P2 [H1 Hne1] H2. apply Hne1, HA; [exact H1|].
+          pose proof (M1 c2 H2) as Hpc2. rewrite (anc_some c2 n P2) in Hpc2.
+          destruct Hpc2 as [<-|Hpn]; [apply anc_par, P1|].
+          eapply anc_tr; [apply anc_par, P1|exact Hpn]. }
+        intros n st c1 c2 Est K P1 P2 H1 H2. apply Hin in H1. apply Hin in H2.
+        destruct H1 as [H1|H1], H2 as [H2|H2].
+        + eapply Hamo; eauto; tauto.
+        + exfalso. eapply (Hmix n st c1 c2); eauto.
+        + exfalso. eapply (Hmix n st c2 c1); eauto.
+        + eapply M3; eauto.
+    Qed.
+
+    (* a final child of the root together with the root is the whole configuration *)
+    Lemma final_step_all cfg leaf ls :
+      wk cfg -> In leaf cfg -> state_for sc leaf = Some ls -> s_kind ls = KFinal ->
+      par leaf = Some r -> forall x, In x cfg -> x = leaf \/ x = r.
+    Proof.
+      intros Hwk Hl Els Kls Pl x Hx.
+      pose proof (wk_under_root cfg x Hwk Hx) as Ux.
+      pose proof (wk_root cfg x Hwk Hx) as Hr.
+      destruct Hwk as (Hnd & Hex & Hcl & Hamo).
+      destruct Ux as [->|Ux]; [right; reflexivity|]. left.
+      destruct (child_toward r x Ux) as (k & Pk & Uk).
+      assert (In k cfg) as Hkc by (exact (pclosed_under cfg k x Hcl Hx Uk)).
+      destruct (state_for sc r) as [rs|] eqn:Ers; [|exfalso; exact (Hex r Hr Ers)].
+      assert (kids r <> []) as Hkr.
+      { intros E. apply Hpc in Pl. rewrite E in Pl. destruct Pl. }
+      assert (kids leaf = []) as Hkl.
+      { apply (no_kids_of_kind leaf ls Els); rewrite Kls; discriminate. }
+      destruct (Hcomposite r rs Ers Hkr) as [K|K].
+      - assert (k = leaf) as -> by (exact (Hamo r rs k leaf Ers K Pk Pl Hkc Hl)).
+        destruct Uk as [E|Uk]; [exact E|]. exfalso. exact (no_kids_no_desc leaf x Hkl Uk).
+      - exfalso. exact (Hregions r rs leaf ls Ers K Pl Els Kls).
+    Qed.
+
+    Lemma css_some (i : ist) step :
+      css i = Some (inl step) ->
+      (exists n, is_leaf (i_config i) n /\ stab_for_leaf sc (i_memory i) n = Some (inl step))
+      \/ (exists n, In n (i_config i) /\ stab_for_orthogonal sc (i_config i) n = Some (inl step)).
+    Proof.
+      unfold create_stabilization_step.
+      destruct (first_some (stab_for_leaf sc (i_memory i)) _) eqn:E1.
+      - intros H. inversion H; subst. left. apply first_some_some in E1.
+        destruct E1 as (n & Hn & Hs). exists n. split; [apply leaf_for_iff; apply sort_In in Hn; exact Hn|exact Hs].
+      - intros H. right. apply first_some_some in H. destruct H as (n & Hn & Hs).
+        exists n. split; [apply sort_In in Hn; exact Hn|exact Hs].
+    Qed.
+
+    Lemma nodup_empty (l : list name) : (forall x, ~ In x l) -> l = [].
+    Proof. destruct l as [|x l]; [reflexivity|]. intros H. exfalso. apply (H x). left; reflexivity. Qed.
+
+    (* J: the invariant of the stabilisation loop *)
+    Definition J (cfg : list name) : Prop := wk cfg /\ (cfg = [] \/ In r cfg).
+
+    Lemma stab_step_J (i : ist) step cfg' :
+      css i = Some (inl step) -> wk (i_config i) -> memory_wf (i_memory i) ->
+      (forall x, In x (ms_entered step) -> state_for sc x <> None) ->
+      NoDup cfg' ->
+      (forall x, In x cfg' <-> (In x (i_config i) /\ ~ In x (ms_exited step)) \/ In x (ms_entered step)) ->
+      J cfg'.
+    Proof.
+      intros Hcss Hwk Hmem Hent Hnd' Hin.
+      assert (forall x, In x cfg' -> state_for sc x <> None) as Hex'.
+      { intros x Hx. apply Hin in Hx. destruct Hx as [[Hx _]|Hx]; [|apply Hent, Hx].
+        destruct Hwk as (_ & Hex & _). apply Hex, Hx. }
+      assert (forall n E, In n (i_config i) -> ms_exited step = [] ->
+                (forall x, In x (ms_entered step) <-> In x E) ->
+                (forall x, In x E -> par x = Some n) ->
+                (forall st, state_for sc n = Some st -> s_kind st = KCompound ->
+                   (forall c, par c = Some n -> ~ In c (i_config i)) /\ (forall x y, In x E -> In y E -> x = y)) ->
+                J cfg') as Henter.
+      { intros n E Hn Hexit HE Hpar Hcomp. split.
+        - apply (enter_children_wk (i_config i) cfg' n E); auto.
+          intros x. rewrite Hin, Hexit, HE. simpl. tauto.
+        - right. apply Hin. left. split; [eapply wk_root; eauto|]. rewrite Hexit. intros []. }
+      apply css_some in Hcss. destruct Hcss as [(n & [Hn Hleaf] & Hs)|(n & Hn & Hs)].
+      - unfold stab_for_leaf in Hs. destruct (state_for sc n) as [st|] eqn:Est; [|discriminate].
+        destruct (s_kind st) eqn:K.
+        + discriminate.
+        + (* compound leaf: enter the initial state *)
+          destruct (truthy (s_initial st)) as [i0|] eqn:Ei; [|discriminate].
+          inversion Hs; subst step. clear Hs. cbn [ms_entered ms_exited] in *.
+          apply (Henter n [i0] Hn eq_refl); [intros x; simpl; tauto| |].
+          * intros x [<-|[]]. eapply Hinitial; eauto.
+          * intros st' _ _. split.
+            -- intros c Pc Hc. apply (Hleaf c); [apply desc_iff, anc_par, Pc|exact Hc].
+            -- intros x y [<-|[]] [<-|[]]. reflexivity.
+        + (* orthogonal leaf: enter all children *)
+          destruct (kids n) as [|c l] eqn:Ek; [discriminate|].
+          inversion Hs; subst step. clear Hs. cbn [ms_entered ms_exited] in *.
+          apply (Henter n (kids n) Hn eq_refl).
+          * intros x. change (insert str_leb c (sort_names l)) with (sort str_leb (c :: l)).
+            rewrite sort_In, Ek. tauto.
+          * intros x Hx. apply Hpc, Hx.
+          * intros st' Est' K'. rewrite Est in Est'. inversion Est'; subst st'. congruence.
+        + (* final child of the root: the configuration becomes empty *)
+          destruct (ostr_eqb (par n) (root sc)) eqn:Eo; [|discriminate].
+          rewrite Hroot in Hs. inversion Hs; subst step. clear Hs. cbn [ms_entered ms_exited] in *.
+          apply ostr_eqb_iff in Eo. rewrite Hroot in Eo.
+          assert (cfg' = []) as ->.
+          { apply nodup_empty. intros x Hx. apply Hin in Hx. destruct Hx as [[Hx Hne']|[]].
+            destruct (final_step_all (i_config i) n st Hwk Hn Est K Eo x Hx) as [->| ->];
+              apply Hne'; [left|right; left]; reflexivity. }
+          split; [apply wk_nil|left; reflexivity].
+        + (* shallow history *)
+          destruct (Hhistory n st Est) as (p & ps & Pn & Eps & Kps & Hdef); [rewrite K; reflexivity|].
+          assert (kids n = []) as Hkn by (apply (no_kids_of_kind n st Est); rewrite K; discriminate).
+          assert (exists l, mwf p l /\ ms_exited step = [n] /\ forall x, In x (ms_entered step) <-> In x l)
+            as (l & Hl & Hx1 & He1).
+          { destruct (lookup n (i_memory i)) as [l|] eqn:El.
+            - inversion Hs; subst step. exists l. split; [eapply Hmem; eauto|]. split; [reflexivity|].
+              intros x. simpl. apply sort_In.
+            - destruct (s_memory st) as [m|] eqn:Em; [|discriminate]. inversion Hs; subst step.
+              exists [m]. split; [|split; [reflexivity|intros x; simpl; tauto]].
+              pose proof (Hdef m eq_refl) as Pm. split; [|split].
+              + intros x [<-|[]]. apply anc_par, Pm.
+              + intros x q [<-|[]] Hq. left. congruence.
+              + intros n0 st0 c1 c2 _ _ _ _ [<-|[]] [<-|[]]. reflexivity. }
+          split.
+          * apply (restore_wk (i_config i) cfg' n p ps l); auto.
+            intros x. rewrite Hin, Hx1, He1. simpl. split.
+            -- intros [[H1 H2]|H]; [left; split; [exact H1|intros ->; apply H2; left; reflexivity]|right; exact H].
+            -- intros [[H1 H2]|H]; [left; split; [exact H1|intros [E|[]]; congruence]|right; exact H].
+          * right. apply Hin. left. split; [eapply wk_root; eauto|]. rewrite Hx1.
+            intros [E|[]]. rewrite <- E in Hroot_par. congruence.
+        + (* deep history *)
+          destruct (Hhistory n st Est) as (p & ps & Pn & Eps & Kps & Hdef); [rewrite K; reflexivity|].
+          assert (kids n = []) as Hkn by (apply (no_kids_of_kind n st Est); rewrite K; discriminate).
+          assert (exists l, mwf p l /\ ms_exited step = [n] /\ forall x, In x (ms_entered step) <-> In x l)
+            as (l & Hl & Hx1 & He1).
+          { destruct (lookup n (i_memory i)) as [l|] eqn:El.
+            - inversion Hs; subst step. exists l. split; [eapply Hmem; eauto|]. split; [reflexivity|].
+              intros x. simpl. apply sort_In.
+            - destruct (s_memory st) as [m|] eqn:Em; [|discriminate]. inversion Hs; subst step.
+              exists [m]. split; [|split; [reflexivity|intros x; simpl; tauto]].
+              pose proof (Hdef m eq_refl) as Pm. split; [|split].
+              + intros x [<-|[]]. apply anc_par, Pm.
+              + intros x q [<-|[]] Hq. left. congruence.
+              + intros n0 st0 c1 c2 _ _ _ _ [<-|[]] [<-|[]]. reflexivity. }
+          split.
+          * apply (restore_wk (i_config i) cfg' n p ps l); auto.
+            intros x. rewrite Hin, Hx1, He1. simpl. split.
+            -- intros [[H1 H2]|H]; [left; split; [exact H1|intros ->; apply H2; left; reflexivity]|right; exact H].
+            -- intros [[H1 H2]|H]; [left; split; [exact H1|intros [E|[]]; congruence]|right; exact H].
+          * right. apply Hin. left. split; [eapply wk_root; eauto|]. rewrite Hx1.
+            intros [E|[]]. rewrite <- E in Hroot_par. congruence.
+      - (* completion of an active orthogonal state *)
+        unfold stab_for_orthogonal in Hs. destruct (state_for sc n) as [st|] eqn:Est; [|discriminate].
+        destruct (s_kind st) eqn:K; try discriminate.
+        destruct (filter (fun ch => negb (mem ch (i_config i))) (kids n)) as [|c l] eqn:Ef; [discriminate|].
+        inversion Hs; subst step. clear Hs. cbn [ms_entered ms_exited] in *.
+        apply (Henter n (filter (fun ch => negb (mem ch (i_config i))) (kids n)) Hn eq_refl).
+        + intros x. change (insert str_leb c (sort_names l)) with (sort str_leb (c :: l)).
+          rewrite sort_In, Ef. tauto.
+        + intros x Hx. apply filter_In in Hx. apply Hpc, Hx.
+        + intros st' Est' K'. rewrite Est in Est'. inversion Est'; subst st'. congruence.
     Qed.
 
   End WF.
